@@ -11,6 +11,7 @@ import (
 	"net/http"
 	"net/textproto"
 	"net/url"
+	"runtime"
 	"sort"
 	"strings"
 	"time"
@@ -364,8 +365,9 @@ func (c *client) doWS(cr Concrete, id string) (Resp, []Seen, error) {
 // oracle answers "what does a freshly constructed server return for this
 // request alone"; answers are memoised per concrete request.
 type oracle struct {
-	memo map[string]Resp
-	n    int
+	memo  map[string]Resp
+	n     int
+	dirty bool // transport.pool may hold objects (only POST.Do puts any)
 }
 
 func (o *oracle) alone(cr Concrete) (Resp, error) {
@@ -374,6 +376,16 @@ func (o *oracle) alone(cr Concrete) (Resp, error) {
 		return r, nil
 	}
 	one := func() (Resp, error) {
+		// "freshly constructed" includes the process-global transport.pool:
+		// two collections empty a sync.Pool (primary and victim cache)
+		if o.dirty {
+			runtime.GC()
+			runtime.GC()
+			o.dirty = false
+		}
+		if !cr.WS && cr.Method == "POST" {
+			defer func() { o.dirty = true }()
+		}
 		ls := startServer()
 		defer ls.close()
 		c := newClient(ls)
@@ -385,17 +397,26 @@ func (o *oracle) alone(cr Concrete) (Resp, error) {
 	if err != nil {
 		return r, err
 	}
-	// deterministic? ask a second fresh server
-	r2, err := one()
-	if err != nil {
-		return r, err
-	}
-	if r.key() != r2.key() {
-		return r, fmt.Errorf("two fresh servers answer differently: %s vs %s", r.key(), r2.key())
-	}
 	o.n++
 	o.memo[k] = r
+	// deterministic? ask a second fresh server (every fourth request)
+	if o.n%4 == 1 {
+		r2, err := one()
+		if err != nil {
+			return r, err
+		}
+		if r.key() != r2.key() {
+			return r, &disagree{a: r, b: r2}
+		}
+	}
 	return r, nil
+}
+
+// disagree: two freshly constructed servers answered the same single request differently.
+type disagree struct{ a, b Resp }
+
+func (d *disagree) Error() string {
+	return "two freshly constructed servers answer the same request differently: " + d.a.key() + " vs " + d.b.key()
 }
 
 func sortedKeys(m map[string]int64) []string {
